@@ -1,9 +1,315 @@
 """C03 - two-collection search returns exactly the query/reference pairs within range."""
+import contextlib
+import io
 import itertools
+import os
+import numpy as np
+import pandas as pd
 import gens
-from gens import all_strings, repertoire, canon_triplets, canon_model
+from gens import all_strings, repertoire, canon_triplets, canon_model, diff_triplets, shrink_list, mutate
 from searchlib import Case, run_cases
-from core import call_impl
+from core import call_impl, jsonable
+
+# ---------------------------------------------------------------------------------------------------------------------------------
+# Option / container variants (audit widening).  A variant is a JSON-able description `v` of ONE two-collection search:
+#   entry   'symdel' | 'nearest_neighbor' | 'SymdelDB' | 'LookupDB'       k        max_edits
+#   refs, qs  the two collections as lists                                rc, qc   container kind of either (CONTAINERS)
+#   same    the reference OBJECT is passed as the queries too              ham      custom_distance='hamming'
+#   out     output_type                                                    progress progress=True (not nearest_neighbor)
+#   n_cpu, max_returns  (symdel / nearest_neighbor; documented as ignored)  maxc     max_custom_distance with the default distance
+#   style   'kw' (non-default options by keyword) | 'pos' (everything positional) | 'kwall' (everything by keyword, seqs=/seqs2=)
+#           | 'default_k' (max_edits left to its default 1)
+# The expected value is always the model's brute-force cross search of the two collections in POSITIONAL (iteration) order.
+CONTAINERS = ['list', 'tuple', 'ndarray', 'ndarray_object', 'series_default', 'series_shifted', 'series_reversed', 'series_string',
+              'index', 'dict_keys', 'set']
+UNIQUE_ONLY = ('dict_keys', 'set')
+
+
+class WrongMatrixShape(Exception):
+    pass
+
+
+def container(kind, seqs):
+    seqs, n = list(seqs), len(seqs)
+    if kind == 'list':
+        return seqs
+    if kind == 'tuple':
+        return tuple(seqs)
+    if kind == 'ndarray':
+        return np.array(seqs, dtype=str)
+    if kind == 'ndarray_object':
+        a = np.empty(n, dtype=object)
+        a[:] = seqs
+        return a
+    if kind == 'series_default':
+        return pd.Series(seqs, dtype=object)
+    if kind == 'series_shifted':
+        return pd.Series(seqs, index=range(5, 5 + n))
+    if kind == 'series_reversed':
+        return pd.Series(seqs, index=range(n - 1, -1, -1))
+    if kind == 'series_string':
+        return pd.Series(seqs, index=['r%d' % i for i in range(n)])
+    if kind == 'index':
+        return pd.Index(seqs, dtype=object)
+    if kind == 'dict_keys':
+        return dict.fromkeys(seqs).keys()
+    if kind == 'set':
+        return set(seqs)
+    raise ValueError(kind)
+
+
+def prepare(v):
+    """-> (reference object, query object, references in positional order, queries in positional order)"""
+    refs_c = container(v.get('rc', 'list'), v['refs'])
+    qs_c = refs_c if v.get('same') else container(v.get('qc', 'list'), v['qs'])
+    return refs_c, qs_c, [str(x) for x in refs_c], [str(x) for x in qs_c]
+
+
+def as_triplets(res, out, nref, nq):
+    """Any output form -> canonical (q, r, d) triplets; the dense form cannot show d = 0 (the caller drops those from the expectation)."""
+    if out == 'triplets':
+        return canon_triplets(res)
+    if tuple(res.shape) != (nref, nq):
+        raise WrongMatrixShape('%s instead of %s' % (tuple(res.shape), (nref, nq)))
+    if out == 'coo_matrix':
+        return canon_triplets(zip(res.col.tolist(), res.row.tolist(), res.data.tolist()))
+    r, q = np.nonzero(res)
+    return canon_triplets(zip(q.tolist(), r.tolist(), res[r, q].tolist()))
+
+
+def db_lookup(db, is_lookupdb, qs_c, k, style='kw', ham=False, maxc=None, out='triplets', progress=False, pdist=False):
+    cd, mc = ('hamming' if ham else None), (float('inf') if maxc is None else maxc)
+    kw = {}
+    if ham:
+        kw['custom_distance'] = cd
+    if maxc is not None:
+        kw['max_custom_distance'] = maxc
+    if out != 'triplets':
+        kw['output_type'] = out
+    if progress:
+        kw['progress'] = True
+    if pdist:
+        kw['pdist_mode'] = True
+    with contextlib.redirect_stderr(io.StringIO()):      # the progress bar writes to stderr
+        if not is_lookupdb:
+            if style == 'pos':
+                return db.lookup(qs_c, cd, mc, out, progress)
+            return db.lookup(seqs2=qs_c, **kw) if style == 'kwall' else db.lookup(qs_c, **kw)
+        if style == 'pos':
+            return db.lookup(qs_c, k, pdist, cd, mc, out, progress)
+        if style == 'kwall':
+            kw.setdefault('pdist_mode', False)
+            return db.lookup(seqs2=qs_c, max_edits=k, **kw)
+        return db.lookup(qs_c, **kw) if style == 'default_k' else db.lookup(qs_c, max_edits=k, **kw)
+
+
+def invoke(nn, v, refs_c, qs_c, nref, nq):
+    e, k, style = v['entry'], v['k'], v.get('style', 'kw')
+    ham, maxc, out, progress = bool(v.get('ham')), v.get('maxc'), v.get('out', 'triplets'), bool(v.get('progress'))
+    if e in ('symdel', 'nearest_neighbor'):
+        fn, n_cpu, mr = getattr(nn, e), v.get('n_cpu') or 1, v.get('max_returns')
+        kw = {}
+        if ham:
+            kw['custom_distance'] = 'hamming'
+        if maxc is not None:
+            kw['max_custom_distance'] = maxc
+        if out != 'triplets':
+            kw['output_type'] = out
+        if progress:
+            kw['progress'] = True
+        if n_cpu != 1:
+            kw['n_cpu'] = n_cpu
+        if mr is not None:
+            kw['max_returns'] = mr
+        with contextlib.redirect_stderr(io.StringIO()):
+            if style == 'pos':
+                res = fn(*([refs_c, k, mr, n_cpu, 'hamming' if ham else None, float('inf') if maxc is None else maxc, out, qs_c]
+                           + ([progress] if e == 'symdel' else [])))
+            elif style == 'kwall':
+                res = fn(seqs=refs_c, max_edits=k, seqs2=qs_c, **kw)
+            elif style == 'default_k':
+                res = fn(refs_c, seqs2=qs_c, **kw)
+            else:
+                res = fn(refs_c, max_edits=k, seqs2=qs_c, **kw)
+    else:
+        lk = e == 'LookupDB'
+        if style == 'kwall':
+            db = nn.LookupDB(seqs=refs_c) if lk else nn.SymdelDB(seqs=refs_c, max_edits=k)
+        else:
+            db = nn.LookupDB(refs_c) if lk else nn.SymdelDB(refs_c, k)
+        res = db_lookup(db, lk, qs_c, k, style, ham, maxc, out, progress)
+    return as_triplets(res, out, nref, nq)
+
+
+def describe(v):
+    opts = ['%s=%s' % (a, v[a]) for a in ('rc', 'qc', 'same', 'ham', 'out', 'progress', 'n_cpu', 'max_returns', 'maxc', 'style') if v.get(a)
+            or (a == 'maxc' and v.get(a) is not None)]
+    return '%s max_edits=%d%s' % (v['entry'], v['k'], (' [' + ', '.join(opts) + ']') if opts else '')
+
+
+def expect(v, exp):
+    e = canon_model(exp)
+    return [t for t in e if t[2] != 0] if v.get('out') == 'ndarray' else e
+
+
+def run_variants(ctx, nn, variants, shrink=True):
+    """Each variant against the model (brute-force cross search of the positional contents)."""
+    prepared = [prepare(v) for v in variants]
+    reqs = [('api_brute_cross_ham' if v.get('ham') else 'api_brute_cross_lev', [v['k'], p[2], p[3]]) for v, p in zip(variants, prepared)]
+    keys = [(f, a[0], tuple(a[1]), tuple(a[2])) for f, a in reqs]
+    uniq = {}
+    for key, rq in zip(keys, reqs):             # several entry points on the same data share one model evaluation
+        uniq.setdefault(key, rq)
+    order = sorted(uniq, key=lambda key: -(len(key[2]) * len(key[3]) * (1 + max(map(len, key[2] + key[3])) ** 2)))
+    from concurrent.futures import ThreadPoolExecutor
+    with ThreadPoolExecutor(1) as ex:           # the model (separate processes) works while the implementation is called here
+        fut = ex.submit(ctx.oracle.run_parallel, [uniq[key] for key in order])
+        gots = [call_impl(invoke, nn, v, p[0], p[1], len(p[2]), len(p[3])) for v, p in zip(variants, prepared)]
+        answers = dict(zip(order, fut.result()))
+    outs = [answers[key] for key in keys]
+    nviol = 0
+    for v, (refs_c, qs_c, ro, qo), exp, got in zip(variants, prepared, outs, gots):
+        if isinstance(exp, Exception):
+            raise exp
+        expected = expect(v, exp)
+        ctx.case(sample=None, nontrivial_key=('variant', describe(v), tuple(ro[:50]), tuple(qo[:50]), len(ro), len(qo)) if expected else None)
+        if got[0] == 'ok' and got[1] == expected:
+            continue
+        nviol += 1
+        if nviol > 3:
+            continue
+        w = dict(v)
+        if shrink and len(ro) + len(qo) <= 120 and not v.get('same'):
+            def fails(w2):
+                r2, q2, ro2, qo2 = prepare(w2)
+                e2 = ctx.oracle.run([('api_brute_cross_ham' if w2.get('ham') else 'api_brute_cross_lev', [w2['k'], ro2, qo2])])[0]
+                g2 = call_impl(invoke, nn, w2, r2, q2, len(ro2), len(qo2))
+                return not (g2[0] == 'ok' and g2[1] == expect(w2, e2))
+            try:
+                w['qs'] = shrink_list(w['qs'], lambda x: fails(dict(w, qs=x)), max_steps=80)
+                w['refs'] = shrink_list(w['refs'], lambda x: fails(dict(w, refs=x)), max_steps=80)
+                r2, q2, ro2, qo2 = prepare(w)
+                expected = expect(w, ctx.oracle.run([('api_brute_cross_ham' if w.get('ham') else 'api_brute_cross_lev', [w['k'], ro2, qo2])])[0])
+                got = call_impl(invoke, nn, w, r2, q2, len(ro2), len(qo2))
+            except Exception:
+                w = dict(v)
+        detail = got if got[0] != 'ok' else diff_triplets(got[1], expected)
+        short = lambda x: x if len(x) <= 12 else x[:12] + ['... (%d)' % len(x)]
+        ctx.violation('property', '%s: differs from the pairs within range of references %s / queries %s: %s' %
+                      (describe(w), short([s if len(s) <= 40 else s[:40] + '...(%d)' % len(s) for s in w['refs']]),
+                       'the same object' if w.get('same') else short([s if len(s) <= 40 else s[:40] + '...(%d)' % len(s) for s in w['qs']]),
+                       jsonable(detail)),
+                      dict(variant=w, detail=jsonable(detail)), site='nn.%s[variant]' % w['entry'])
+    return nviol
+
+
+# ---------------------------------------------------------------------------------------------------------------------------------
+# Scripts: call histories on database objects / module functions, as JSON-able op lists (so that a replay carries the whole history).
+#   fill    buf, kind ('list' | 'ndarray' | 'ndarray_object'), values      create a named buffer, or REFILL IT IN PLACE when it exists
+#   build   db, cls, k, refs + rc | refs_buf                               build a database object
+#   lookup  db, qs + qc | qs_buf | use_refs (the object the database was built from), k (LookupDB), ham, out, progress, pdist, style
+#   call    fn ('symdel' | 'nearest_neighbor'), k, refs | refs_buf, qs | qs_buf, ham      a one-shot two-collection search
+#   noise   fn ('symdel' | 'nearest_neighbor' | 'hash_based' | 'kdtree'), seqs, k         a one-collection search in between (unchecked)
+class Player:
+    def __init__(self, nn):
+        self.nn, self.bufs, self.dbs = nn, {}, {}
+
+    def obj(self, op, key):
+        if op.get(key + '_buf'):
+            return self.bufs[op[key + '_buf']]
+        return container(op.get('rc' if key == 'refs' else 'qc', 'list'), op[key])
+
+    def step(self, op):
+        nn, o = self.nn, op['op']
+        if o == 'fill':
+            if op['buf'] not in self.bufs:
+                self.bufs[op['buf']] = (list(op['values']) if op['kind'] == 'list' else np.array(op['values'], dtype='<U40')
+                                        if op['kind'] == 'ndarray' else container('ndarray_object', op['values']))
+            else:
+                self.bufs[op['buf']][:] = op['values']
+            return None
+        if o == 'build':
+            refs_c = self.obj(op, 'refs')
+            lk = op['cls'] == 'LookupDB'
+            self.dbs[op['db']] = (nn.LookupDB(refs_c) if lk else nn.SymdelDB(refs_c, op['k']), refs_c, lk, op.get('k'))
+            return None
+        if o == 'lookup':
+            db, refs_c, lk, kb = self.dbs[op['db']]
+            qs_c = refs_c if op.get('use_refs') else self.obj(op, 'qs')
+            out = op.get('out', 'triplets')
+            res = db_lookup(db, lk, qs_c, op.get('k', kb), op.get('style', 'kw'), bool(op.get('ham')), None, out, bool(op.get('progress')),
+                            bool(op.get('pdist')))
+            return as_triplets(res, out, len(refs_c), len(qs_c))
+        if o == 'call':
+            kw = dict(custom_distance='hamming') if op.get('ham') else {}
+            return canon_triplets(getattr(nn, op['fn'])(self.obj(op, 'refs'), max_edits=op['k'], seqs2=self.obj(op, 'qs'), **kw))
+        if o == 'noise':
+            getattr(nn, op['fn'])(list(op['seqs']), max_edits=op['k'])
+            return None
+        raise ValueError(o)
+
+
+def script_requests(script):
+    """Pure simulation of the buffers: for every checked op the oracle request and the post-filter of the model's answer."""
+    bufs, dbs, reqs = {}, {}, []
+
+    def cur(op, key):
+        if op.get(key + '_buf'):
+            return list(bufs[op[key + '_buf']])
+        return [str(x) for x in container(op.get('rc' if key == 'refs' else 'qc', 'list'), op[key])]
+    for op in script:
+        o, rq = op['op'], None
+        if o == 'fill':
+            bufs[op['buf']] = list(op['values'])
+        elif o == 'build':
+            dbs[op['db']] = (cur(op, 'refs'), op.get('k'))          # the index is built from the contents at construction
+        elif o == 'lookup':
+            refs, kb = dbs[op['db']]
+            qs = refs if op.get('use_refs') else cur(op, 'qs')
+            rq = ('api_brute_cross_ham' if op.get('ham') else 'api_brute_cross_lev', [op.get('k', kb), refs, qs])
+        elif o == 'call':
+            rq = ('api_brute_cross_ham' if op.get('ham') else 'api_brute_cross_lev', [op['k'], cur(op, 'refs'), cur(op, 'qs')])
+        reqs.append(rq)
+    return reqs
+
+
+def op_text(op):
+    t = lambda x: x if len(x) <= 8 else x[:8] + ['... (%d)' % len(x)]
+    d = {a: (t(b) if isinstance(b, list) else b) for a, b in op.items() if a != 'op'}
+    return '%s%s' % (op['op'], d)
+
+
+def run_script(ctx, nn, script, name):
+    """Plays the history; every checked answer must be the model's (= a fresh one-shot search of the same contents)."""
+    reqs = script_requests(script)
+    outs = iter(ctx.oracle.run([r for r in reqs if r is not None]))
+    pl = Player(nn)
+    for i, (op, rq) in enumerate(zip(script, reqs)):
+        g = call_impl(pl.step, op)
+        if rq is None:
+            if g[0] != 'ok' and op['op'] != 'noise':
+                ctx.violation('property', '%s: step %d (%s) raised %s' % (name, i, op_text(op), g[1]), dict(script=script[:i + 1]),
+                              site='nn.history[%s]' % name)
+                return 1
+            continue
+        exp = next(outs)
+        if isinstance(exp, Exception):
+            raise exp
+        expected = canon_model(exp)
+        if op.get('pdist'):
+            expected = [t for t in expected if t[0] != t[1]]          # documented: seqs2 = seqs assumed, diagonal filtered
+        if op.get('out') == 'ndarray':
+            expected = [t for t in expected if t[2] != 0]
+        ctx.case(nontrivial_key=('script', name, i, repr(script[:i + 1])[:4000]) if expected else None)
+        ctx.count('history2_checked_steps')
+        if g[0] == 'ok' and g[1] == expected:
+            continue
+        detail = g if g[0] != 'ok' else diff_triplets(g[1], expected)
+        ctx.violation('property', '%s: the answer of step %d differs from a fresh search of the same contents: %s; history: %s' %
+                      (name, i, jsonable(detail), ' ; '.join(op_text(x) for x in script[:i + 1])[:1200]),
+                      dict(script=script[:i + 1], detail=jsonable(detail)), site='nn.history[%s]' % name)
+        return 1
+    return 0
 
 
 def run(ctx):
@@ -14,7 +320,15 @@ def run(ctx):
                 'LookupDB.lookup (k <= 2); (b) random repertoire pairs of different sizes with shared content and duplicates; '
                 '(c) database histories: one build, 2-6 lookups (reference list itself, empty-hit query, repeated queries), each '
                 'answer compared with the model and with a fresh one-shot search. non-trivial := some hit has q = r, some has d = 0, '
-                'some is an insertion/deletion')
+                'some is an insertion/deletion. Audit widening (non-trivial := non-empty expected answer): (d) every non-default option '
+                '(Hamming mode, output_type, progress, n_cpu, max_returns, max_custom_distance with the default distance), container kind '
+                '(tuple, str / object ndarray, Series with default / shifted / reversed / string index, Index, dict keys, set; the same '
+                'object as both collections) and call style (positional, all keywords, max_edits left to its default) with every entry '
+                'point, alone and in pairs; (e) sequence lengths around 64 / 128 / 256, collections beyond 255 / 1000 / 2**15 (2**16 '
+                'thorough) positions, more than 255 hits of one query, one-sequence collections; (g) case-sensitive, punctuation, '
+                'non-ASCII and astral alphabets; (h) max_edits 4..12 and LookupDB at 3; (f) scripted histories: per-lookup options on '
+                'one SymdelDB, a query / reference container refilled in place between calls, the reference object itself as the '
+                'queries, two live databases interleaved with one-collection searches, pdist_mode steps on a LookupDB')
     cases = []
 
     def nontriv(refs, qs):
@@ -161,12 +475,334 @@ def run(ctx):
                               dict(refs=refs, history=hist[:step + 1], steps=steps[:step + 1], k=k, got=str(g)[:400]),
                               site='nn.LookupDB.lookup' if use_lookupdb else 'nn.SymdelDB.lookup')
                 break
+
+    # ------------------------------------------------------------------------------------------------------------------------------
+    # Audit widening: (d) options / containers / call styles, (e) sizes, (g) alphabets, (h) large radii, (f) further histories
+    AAs = gens.AA
+    rs = lambda al, L: ''.join(rng.choice(al) for _ in range(L))
+    short = lambda xs: [x for x in xs if len(x) <= 12] or ['CAF']
+    take = lambda xs, n: [xs[i % len(xs)] for i in range(n)]
+    variants = []
+
+    def pool_of(n, lk=False):
+        """exactly n repertoire-like sequences (short ones for LookupDB, whose edit ball grows with the length)"""
+        out = []
+        while len(out) < n:
+            out += short(repertoire(rng, n)) if lk else repertoire(rng, n)
+        return out[:n]
+
+    def ham_pool(n):
+        out = []
+        while len(out) < n:
+            root = rs(AAs, rng.randint(1, 11))
+            for _ in range(rng.randint(1, 5)):
+                x = list(root)
+                for _ in range(rng.randint(0, 3)):
+                    x[rng.randrange(len(x))] = rng.choice(AAs)
+                out.append(''.join(x))
+            if rng.random() < 0.4:
+                out.append(root[1:] or 'A')                        # one deletion away: never a Hamming neighbour
+        out = out[:n]
+        rng.shuffle(out)
+        return out
+
+    # (d) every non-default option / container kind / call style with every entry point, alone and in pairs
+    FEATURES = ['rc', 'qc', 'rc+qc', 'same', 'ham', 'coo', 'dense', 'progress', 'n_cpu', 'max_returns', 'maxc', 'pos', 'kwall', 'default_k']
+    ENTRIES = ['symdel', 'nearest_neighbor', 'SymdelDB', 'LookupDB']
+    kinds_r, kinds_q = list(CONTAINERS[1:]), list(CONTAINERS[1:])
+    rng.shuffle(kinds_r)
+    rng.shuffle(kinds_q)
+    nkind = [0, 0]
+
+    # max_custom_distance is documented as "ignored if custom distance is not supplied": every entry point, LookupDB.lookup included
+    # (D21: it applied the radius to the default and Hamming distances; repaired in /repo by ac40883)
+    maxc_entries = ENTRIES
+
+    def admissible(f, e):
+        return e in {'n_cpu': ('symdel', 'nearest_neighbor'), 'max_returns': ('symdel',), 'progress': ('symdel', 'SymdelDB', 'LookupDB'),
+                     'maxc': maxc_entries}.get(f, ENTRIES)
+
+    def apply(v, f):
+        if f in ('rc', 'rc+qc', 'same'):
+            v['rc'] = kinds_r[nkind[0] % len(kinds_r)]
+            nkind[0] += 1
+        if f in ('qc', 'rc+qc'):
+            v['qc'] = kinds_q[nkind[1] % len(kinds_q)]
+            nkind[1] += 1
+        if f == 'same':
+            v['same'] = True
+        elif f == 'ham':
+            v['ham'] = True
+        elif f in ('coo', 'dense'):
+            v['out'] = 'coo_matrix' if f == 'coo' else 'ndarray'
+        elif f == 'progress':
+            v['progress'] = True
+        elif f == 'n_cpu':
+            v['n_cpu'] = rng.choice([2, 3, 4, len(v['qs']), len(v['qs']) + 3])
+            if v['n_cpu'] < 2:
+                v['n_cpu'] = 2
+        elif f == 'max_returns':
+            v['max_returns'] = rng.choice([1, 1, 2, 5])
+        elif f == 'maxc':
+            v['maxc'] = rng.choice([0, 0.5, 1, 1.0])
+        elif f in ('pos', 'kwall'):
+            v['style'] = f
+        elif f == 'default_k':
+            v['style'], v['k'] = 'default_k', 1
+
+    nfeat = 0
+    for t in range(len(FEATURES) * 4 * (1 if ctx.quick else 20)):
+        f1 = FEATURES[t % len(FEATURES)]
+        e = ENTRIES[(t // len(FEATURES)) % 4]
+        if not admissible(f1, e):
+            e = 'SymdelDB' if f1 == 'maxc' else ['symdel', 'nearest_neighbor'][t % 2] if admissible(f1, 'nearest_neighbor') else 'symdel'
+        fs = [f1]
+        if rng.random() < 0.6:
+            f2 = rng.choice(FEATURES)
+            styles = ('pos', 'kwall', 'default_k')
+            clash = (f2 == f1 or not admissible(f2, e) or (f1 in styles and f2 in styles) or {f1, f2} == {'ham', 'maxc'} or {f1, f2} == {'coo', 'dense'}
+                     or ({f1, f2} & {'rc', 'qc', 'rc+qc', 'same'} == {f1, f2}))
+            if not clash:
+                fs.append(f2)
+        ham = 'ham' in fs
+        n1, n2 = rng.randint(1, 20), rng.randint(1, 20)
+        pool = ham_pool(n1 + n2) if ham else repertoire(rng, n1 + n2)
+        refs = pool[:n1]
+        qs = pool[n1:] + rng.sample(refs, min(len(refs), rng.randint(0, 3))) or [refs[0]]
+        k = rng.choice([1, 1, 2, 3])
+        if e == 'LookupDB':
+            k, refs, qs = min(k, 2), short(refs), short(qs)
+            if k == 2:                                   # the ball of a query of length L has about (40 L)^2 members
+                qs = [x for x in qs if len(x) <= 9][:8] or ['CAF']
+        v = dict(entry=e, k=k, refs=refs, qs=qs)
+        for f in fs:
+            apply(v, f)
+        if v.get('rc') in UNIQUE_ONLY:
+            v['refs'] = list(dict.fromkeys(v['refs']))
+        if v.get('qc') in UNIQUE_ONLY:
+            v['qs'] = list(dict.fromkeys(v['qs']))
+        if v.get('same'):
+            v['qs'] = v['refs']
+        for f in fs:
+            ctx.count('option:' + f)
+        for a in ('rc', 'qc'):
+            if v.get(a):
+                ctx.count('container:' + v[a])
+        if len(fs) == 2:
+            ctx.count('two_options')
+        variants.append(v)
+        nfeat += 1
+
+    # (e1) long sequences: lengths on both sides of 64, 128, 256 (and 300); hits by identity, one substitution, a shift (deletion at one end,
+    # insertion at the other), a deletion and an insertion that cross the length threshold
+    def other(c):
+        return rng.choice([x for x in AAs if x != c])
+    if ctx.quick:
+        lengths = [rng.choice([63, 64, 65]), 127, 128, rng.choice([129, 130]), rng.choice([255, 256, 257])]
+    else:
+        lengths = [63, 64, 65, 127, 128, 129, 255, 256, 257, 300, rng.randint(66, 126), rng.randint(131, 254)]
+    for L in lengths:
+        big_one = L >= 200
+        refs, qs = [], []
+        for _ in range(1 if big_one else 2):
+            r0 = rs(AAs, L)
+            i, j = rng.randrange(L), rng.randrange(L)
+            refs += [r0, r0[:j] + other(r0[j]) + r0[j + 1:]] + ([] if big_one else [r0[:L // 2] + rng.choice(AAs) + r0[L // 2:]])
+            qs += [r0[:i] + other(r0[i]) + r0[i + 1:], r0[1:] + rng.choice(AAs), r0[:L - 1]] + ([] if big_one else [r0, r0 + 'A'])
+        ctx.count('long_sequences_L=%d' % L)
+        vs = [dict(entry=e, k=k, refs=refs, qs=qs) for e, k in (('symdel', 2), ('SymdelDB', 2), ('nearest_neighbor', 1), ('LookupDB', 1), ('SymdelDB', 1))]
+        vs.append(dict(entry='symdel', k=2, refs=refs, qs=qs, rc='ndarray', qc='series_shifted'))
+        variants += rng.sample(vs, 4) if ctx.quick else vs
+
+    # (e2) large collections: reference / query positions beyond 255, 1000 (2**15, 2**16), more than 255 hits of one query, equal positions
+    # far from 0 on both sides, collections made of one repeated sequence, the smallest collections
+    def many(n, m, lk=False):
+        big = pool_of(n, lk)
+        few = [big[-1], mutate(rng, big[-2], AAs, 1), big[n // 2], mutate(rng, big[min(n - 1, 256)], AAs, 1), big[min(n - 1, 255)]]
+        few += [mutate(rng, rng.choice(big), AAs, rng.randint(0, 2)) for _ in range(max(0, m - len(few)))]
+        return big, few[:max(1, m)]
+    sizes = [256 + rng.randint(-1, 2), 1000 + rng.randint(0, 200)] + ([] if ctx.quick else [2 ** 12 + 1, 2 ** 15 + rng.randint(0, 9), 2 ** 16 + rng.randint(0, 9)])
+    for n in sizes:
+        for side in ('refs', 'queries'):
+            if n > 40000 and side == 'queries':
+                continue
+            k = 1 if n > 3000 else rng.choice([1, 2])
+            big, few = many(n, 6)
+            ctx.count('large_collection_%s>=%d' % (side, 2 ** (n.bit_length() - 1)))
+            for e in ENTRIES[:3] if n < 3000 else [rng.choice(ENTRIES[:3])]:
+                variants.append(dict(entry=e, k=k, refs=big, qs=few) if side == 'refs' else dict(entry=e, k=k, refs=few, qs=big))
+            if side == 'refs' or n < 5000:
+                big, few = many(n, 6, True)
+                variants.append(dict(entry='LookupDB', k=1, refs=big, qs=short(few)) if side == 'refs' else dict(entry='LookupDB', k=1, refs=short(few), qs=big))
+    if ctx.quick:
+        big, few = many(2 ** 15 + rng.randint(1, 9), 2)
+        ctx.count('large_collection_refs>=32768')
+        variants.append(dict(entry=rng.choice(['symdel', 'SymdelDB', 'nearest_neighbor']), k=1, refs=big, qs=few))
+    for t in range(2 if ctx.quick else 12):
+        x = rs(AAs, rng.randint(4, 9))
+        nb = [mutate(rng, x, AAs, 1) for _ in range(6)]
+        refs = [x] * rng.randint(257, 300) + nb + [x] * 3
+        ctx.count('more_than_255_hits_per_query')
+        for e in rng.sample(ENTRIES, 2) if ctx.quick else ENTRIES:
+            variants.append(dict(entry=e, k=1 if e == 'LookupDB' else 2, refs=refs, qs=[x, nb[0], 'WWWWWWWWWWWWW', nb[1]]))
+        n = rng.randint(260, 330)
+        e = ENTRIES[t % 4]
+        col = pool_of(n, e == 'LookupDB')
+        ctx.count('equal_positions_beyond_255')
+        variants.append(dict(entry=e, k=1, refs=col, qs=list(col)))
+        variants.append(dict(entry=ENTRIES[(t + 1) % 4], k=1, refs=[x] * rng.randint(1, 9), qs=[x] * rng.randint(1, 9)))
+        variants.append(dict(entry=ENTRIES[(t + 2) % 4], k=rng.choice([1, 2]), refs=[x], qs=[rng.choice([x, nb[2], 'W'])]))
+
+    # (g) alphabets beyond the amino acids: case matters, digits / punctuation / blanks, non-ASCII and astral code points are characters like
+    # any other (LookupDB: references stay inside its documented alphabet, the queries do not)
+    ALPHABETS = {'mixed_case': 'ACacDd', 'digits_punctuation': '019-*_. ', 'latin_greek': 'AÉéΩωß',
+                 'astral': 'A\U0001d49c\U0001f600C'}
+    for name, al in ALPHABETS.items():
+        for t in range(1 if ctx.quick else 10):
+            base = [rs(al, rng.randint(0, 6)) for _ in range(rng.randint(4, 10))]
+            refs = base + [mutate(rng, x, al, 1) for x in base[:4]]
+            qs = [mutate(rng, x, al, rng.randint(0, 2)) for x in base] + base[:2] + [x.swapcase() for x in base[:3]] + [x.upper() for x in base[3:5]]
+            rng.shuffle(refs)
+            ctx.count('alphabet:' + name)
+            for e in ENTRIES[:3]:
+                variants.append(dict(entry=e, k=rng.choice([1, 2]), refs=refs, qs=qs, **(dict(rc='ndarray', qc='ndarray') if t % 2 else {})))
+    for t in range(3 if ctx.quick else 30):
+        refs = short(repertoire(rng, rng.randint(3, 12)))
+        foreign = 'acXBZ*-é 1'
+        qs = []
+        for x in refs:
+            i = rng.randrange(len(x) + 1)
+            qs += [x[:i] + rng.choice(foreign) + x[i + 1:], x[:i] + rng.choice(foreign) + x[i:], x.lower(), x.capitalize()]
+        qs = short(qs)
+        ctx.count('alphabet:LookupDB_foreign_queries')
+        variants.append(dict(entry='LookupDB', k=rng.choice([1, 2]), refs=refs, qs=qs + [refs[0]]))
+
+    # (h) radii beyond 3 (up to more than every length) and LookupDB at max_edits = 3
+    for t in range(3 if ctx.quick else 40):
+        refs = [rs('ACD', rng.randint(0, 6)) for _ in range(rng.randint(2, 9))]
+        qs = [rs('ACD', rng.randint(0, 6)) for _ in range(rng.randint(2, 9))] + [mutate(rng, rng.choice(refs), 'ACD', rng.randint(0, 5))]
+        k = rng.choice([4, 5, 7, 12])
+        ctx.count('max_edits=%d' % k)
+        for e in ENTRIES[:3]:
+            variants.append(dict(entry=e, k=k, refs=refs, qs=qs, **(dict(ham=True) if t % 3 == 2 else {})))
+    for t in range(3 if ctx.quick else 30):
+        refs = [rs('ACDW', rng.randint(0, 5)) for _ in range(rng.randint(2, 8))]
+        qs = [rs('ACDW', rng.randint(0, 2 if ctx.quick else 3)) for _ in range(rng.randint(1, 3))]
+        ctx.count('LookupDB_max_edits=3')
+        variants.append(dict(entry='LookupDB', k=3, refs=refs, qs=qs, **(dict(ham=True) if t % 3 == 2 else {})))
+    variants.append(dict(entry='LookupDB', k=2, refs=['DA'], qs=[''], maxc=0.5))          # the minimal D21 input
+    run_variants(ctx, nn, variants)
+
+    # (f) further histories, as scripts
+    def pool9(n):
+        """n sequences of at most 9 residues (LookupDB at max_edits = 2 stays cheap), families and duplicates as in repertoire()"""
+        out = []
+        while len(out) < n:
+            out += [x for x in repertoire(rng, 2 * n + 4, maxmut=3) if len(x) <= 9]
+        return out[:n]
+
+    def qlist(refs, n=None, lk=False):
+        n = n or rng.randint(1, 8)
+        return (pool9(n) if lk else repertoire(rng, n)) + rng.sample(refs, min(len(refs), 2))
+
+    def scenario(kind, lk):
+        n = rng.randint(2, 20)
+        refs = pool9(n) if lk else repertoire(rng, n)
+        k = rng.choice([1, 2])
+        kk = lambda: dict(k=rng.choice([1, 1, 2])) if lk else {}
+        cls = 'LookupDB' if lk else 'SymdelDB'
+        if kind == 'symdeldb_per_lookup_options':
+            # SymdelDB takes the distance mode, the output form and the progress flag per lookup
+            sc = [dict(op='build', db='A', cls='SymdelDB', k=k, refs=refs, rc=rng.choice(CONTAINERS[:9]))]
+            prev = None
+            for step in range(rng.randint(3, 5)):
+                # queries one deletion / one shift away from a reference: hits of the default distance that are none in Hamming mode
+                near = [x[1:] or 'A' for x in rng.sample(refs, min(len(refs), 2))] + [x[1:] + rng.choice(AAs) for x in rng.sample(refs, 1)]
+                q = prev if prev and (step == 1 or rng.random() < 0.4) else qlist(refs) + near
+                o = dict(op='lookup', db='A', qs=q, qc=rng.choice(CONTAINERS[:9]), ham=rng.random() < 0.5)
+                if prev is q:
+                    o['ham'] = not sc[-1].get('ham')                    # the same queries again in the other distance mode
+                o.update(rng.choice([{}, {}, dict(out='coo_matrix'), dict(out='ndarray'), dict(progress=True), dict(style='pos')]))
+                sc.append(o)
+                prev = q
+            return sc
+        if kind == 'refilled_query_buffer':
+            # ONE preallocated query container, refilled in place between the lookups
+            n = rng.randint(2, 8)
+            bk = rng.choice(['list', 'ndarray', 'ndarray_object'])
+            refs = pool9(len(refs))
+            sc = [dict(op='build', db='A', cls='SymdelDB', k=k, refs=refs), dict(op='build', db='B', cls='LookupDB', refs=refs)]
+            for _ in range(rng.randint(2, 4)):
+                sc += [dict(op='fill', buf='Q', kind=bk, values=take(qlist(refs, n, True), n)), dict(op='lookup', db='A', qs_buf='Q'),
+                       dict(op='lookup', db='B', qs_buf='Q', k=rng.choice([1, 1, 2]))]
+            return sc
+        if kind == 'reference_object_as_queries':
+            # the very object the database was built from is looked up in it (all (i, i, 0) included), before and after other queries
+            sc = [dict(op='build', db='A', cls=cls, k=k, refs=refs, rc=rng.choice(CONTAINERS[:9])), dict(op='lookup', db='A', use_refs=True, **kk()),
+                  dict(op='lookup', db='A', qs=qlist(refs, None, lk), **kk()), dict(op='lookup', db='A', use_refs=True, **kk())]
+            sc[rng.choice([1, 3])].update(rng.choice([{}, dict(out='coo_matrix'), dict(progress=True), dict(style='kwall')]))
+            return sc
+        if kind == 'two_databases_interleaved':
+            # two live databases (shared sequences, different radii / classes) and one-collection searches in between
+            refs_b = repertoire(rng, rng.randint(2, 12)) + rng.sample(refs, min(len(refs), 3))
+            lk_b = rng.random() < 0.4
+            refs_b = short(refs_b) if lk_b else refs_b
+            sc = [dict(op='build', db='A', cls=cls, k=k, refs=refs), dict(op='build', db='B', cls='LookupDB' if lk_b else 'SymdelDB', k=3 - k, refs=refs_b)]
+            for _ in range(rng.randint(3, 6)):
+                w = rng.choice('AB')
+                q = qlist(refs if w == 'A' else refs_b, None, True)
+                o = dict(op='lookup', db=w, qs=q)
+                if (lk if w == 'A' else lk_b):
+                    o['k'] = rng.choice([1, 1, 2])
+                sc.append(o)
+                c = rng.random()
+                if c < 0.5:
+                    sc.append(dict(op='noise', fn=rng.choice(['symdel', 'nearest_neighbor', 'hash_based', 'kdtree']), k=rng.choice([1, 2]),
+                                   seqs=short(rng.sample(q + refs + refs_b, min(8, len(q))))))
+                elif c < 0.75:
+                    sc.append(dict(op='call', fn=rng.choice(['symdel', 'nearest_neighbor']), k=rng.choice([1, 2, 3]), refs=refs_b, qs=q))
+            return sc
+        if kind == 'lookupdb_pdist_step':
+            # pdist_mode=True (documented: the queries are the references, diagonal filtered) between ordinary lookups of one LookupDB
+            refs = pool9(min(len(refs), 10))
+            sc = [dict(op='build', db='A', cls='LookupDB', refs=refs), dict(op='lookup', db='A', use_refs=True, k=k, pdist=True),
+                  dict(op='lookup', db='A', use_refs=True, k=k), dict(op='lookup', db='A', qs=qlist(refs, None, True), k=3 - k),
+                  dict(op='lookup', db='A', qs=list(refs), k=k, pdist=True, style=rng.choice(['kw', 'pos'])), dict(op='lookup', db='A', qs=list(refs), k=k)]
+            return sc
+        # 'refilled_reference_buffer': one-shot searches whose reference container is refilled in place between the calls; same call twice
+        n = rng.randint(2, 10)
+        bk = rng.choice(['list', 'ndarray', 'ndarray_object'])
+        q = qlist(refs, None, lk)
+        sc = []
+        for j in range(rng.randint(2, 3)):
+            sc += [dict(op='fill', buf='R', kind=bk, values=take(pool_of(n, lk) + (short(q) if lk else q)[:2] if j else refs, n)),
+                   dict(op='call', fn=rng.choice(['symdel', 'nearest_neighbor']), k=k, refs_buf='R', qs=q, ham=rng.random() < 0.2)]
+            if rng.random() < 0.5:
+                sc.append(dict(sc[-1]))
+            if rng.random() < 0.5:
+                sc += [dict(op='build', db='D%d' % j, cls=cls, k=k, refs_buf='R'), dict(op='lookup', db='D%d' % j, qs=q, **kk())]
+        return sc
+
+    KINDS = ['symdeldb_per_lookup_options', 'refilled_query_buffer', 'reference_object_as_queries', 'two_databases_interleaved',
+             'lookupdb_pdist_step', 'refilled_reference_buffer']
+    for t in range(len(KINDS) * (2 if ctx.quick else 30)):
+        kind = KINDS[t % len(KINDS)]
+        ctx.count('history2:' + kind)
+        run_script(ctx, nn, scenario(kind, t // len(KINDS) % 2 == 1), kind)      # SymdelDB and LookupDB in turn
     ctx.assumptions += ['rapidfuzz distances', 'references of LookupDB are over the amino-acid alphabet (documented domain)']
 
 
 def replay(ctx, obj):
     import pyrepseq.nn as nn
     r = obj['replay']
+    if 'variant' in r:
+        run_variants(ctx, nn, [r['variant']], shrink=False)
+        return
+    if 'script' in r:
+        run_script(ctx, nn, r['script'], 'replay')
+        return
+    if 'seqs' not in r or 'request' not in r:
+        return run(ctx)                               # histories of family (c): no single-call replay; the whole search again
     refs, qs = r['seqs'], r['seqs2']
     k = r['request'][1][0]
     site = obj.get('site') or ''
